@@ -15,16 +15,16 @@ def run_config(chk, tier, cfgname):
     chk.not_decided += ["C01-C05 on the continued history after a caught panic as a behavioural statement (follows "
                         "from the invariants holding at unwinding exits, which is what is checked)",
                         "leaks (not double frees) of the object whose destructor panicked"]
-    typestate.apply(chk, "mark_one-unwind-rows", "mark_one")
-    typestate.apply(chk, "sweep_one-unwind-rows", "sweep_one")
-    typestate.apply(chk, "drop_all-unwind-rows", "drop_all")
-    typestate.apply(chk, "callback-unwind-rows", "root_paths")
+    typestate.apply(chk, "mark_one-unwind-rows", "mark_one", aspects=("safety",))
+    typestate.apply(chk, "sweep_one-unwind-rows", "sweep_one", aspects=("safety",))
+    typestate.apply(chk, "drop_all-unwind-rows", "drop_all", aspects=("safety",))
+    typestate.apply(chk, "callback-unwind-rows", "root_paths", aspects=("safety",))
     nun = sum(1 for name in ("mark_one", "sweep_one", "drop_all", "root_paths") for r in T.get(name)
               for o in r.outs if o.kind == "unwind")
     chk.floor("unwind-outcomes-explored", nun, 40)
     common.protocol_rows(chk, prog, "protocol-on-unwind", ["collect_debt", "finish_marking", "finish_cycle"],
                          per_method=False)
-    typestate.report_automaton(chk, ["S6", "S7", "S4"])
+    typestate.report_automaton(chk, ["S6", "S7"])
     from gcv import rules_ctor
     rules_ctor.run(chk, prog, T)
     from gcv import rules_builder
